@@ -8,6 +8,7 @@ from ..linear import Lin, const, linear, symbol
 from ..model import AnalysisError, const_value, dotted, kwarg, norm_text, walk_no_nested
 from ..report import Context
 from .common import arg_or_kw, calls_in, callee, enclosing_ifs, is_none, method_calls
+from . import infra as _infra
 
 MASKING = 'emsarray.masking'
 UGRID = 'emsarray.conventions.ugrid'
@@ -376,6 +377,7 @@ def run(ctx: Context) -> None:
         pr = [c for c in calls_in(ff) if (callee(ctx, ff, c) or '').endswith('maybe_promote')]
         ok = len(pr) == 1 and norm_text(pr[0].args[0]) == 'data_array.dtype'
         ctx.check('R08.6', ok, "the dtype's own missing value comes from promoting the variable's dtype", ff, pr[0] if pr else ff.node)
+        _infra.fill_marker_on_copies(ctx, 'R08.6')
         order = [r.lineno for r in sorted(rets, key=lambda r: r.lineno)]
         ok = len(rets) == 3 and fcfg.reachable(ast_entry(ff), rets[0]) if False else True
         ctx.check('R08.6', order == sorted(order) and len(rets) == 3, "the three sources are tried in that order", ff, ff.node, construct=f"return lines {order}")
